@@ -4,6 +4,8 @@ package zzverif
 
 import (
 	"fmt"
+	"slices"
+	"strings"
 	"testing"
 
 	cpb "github.com/google/fhir/go/proto/google/fhir/proto/r4/core/codes_go_proto"
@@ -394,12 +396,78 @@ func c06RunLaw(ctx *Ctx, c c06Case) {
 	}
 }
 
+// --- unparenthesised chains: A op B op C ... evaluate as the precedence table folds them ---
+
+type c06Chain struct {
+	Forms []c06Form `json:"forms"`
+	Ops   []string  `json:"ops"`
+}
+
+func c06GenChain(s Src) c06Chain {
+	n := s.Range(3, 5)
+	var c c06Chain
+	for len(c.Forms) < n {
+		f := pickOne(s, c06Forms)
+		if f.V == "M" {
+			continue
+		}
+		c.Forms = append(c.Forms, f)
+	}
+	for i := 0; i < n-1; i++ {
+		c.Ops = append(c.Ops, pickOne(s, []string{"and", "or", "xor", "or", "xor", "implies"}))
+	}
+	return c
+}
+
+// c06FoldChain: `and` binds tightest, `or` and `xor` share the next level, `implies` is last; all left-associative
+func c06FoldChain(vals, ops []string) string {
+	for _, level := range [][]string{{"and"}, {"or", "xor"}, {"implies"}} {
+		nv, no := []string{vals[0]}, []string{}
+		for i, op := range ops {
+			if slices.Contains(level, op) {
+				nv[len(nv)-1] = c06Model(op, nv[len(nv)-1], vals[i+1])
+			} else {
+				nv, no = append(nv, vals[i+1]), append(no, op)
+			}
+		}
+		vals, ops = nv, no
+	}
+	return vals[0]
+}
+
+func c06RunChain(ctx *Ctx, c c06Chain) {
+	var vals []string
+	src := ""
+	for i, f := range c.Forms {
+		if i > 0 {
+			src += " " + c.Ops[i-1] + " "
+		}
+		src += f.Expr
+		vals = append(vals, c06Val(f))
+	}
+	want := c06FoldChain(vals, c.Ops)
+	got := c06Tri(evalWith(src, fixtureInput(fixturePatient()), c06Vars()))
+	mixed := false
+	for _, op := range c.Ops[1:] {
+		mixed = mixed || op != c.Ops[0]
+	}
+	ctx.Eval(src, mixed, "stage:chains", fmt.Sprintf("chain-mixed-operators:%v", mixed))
+	if got == "cerror" {
+		ctx.Fail("harness: chain does not compile", src)
+		return
+	}
+	if got != want {
+		ctx.Fail(fmt.Sprintf("chain of %s: want %s got %s", strings.Join(c.Ops, "/"), want, got), src)
+	}
+}
+
 func TestC06(t *testing.T) {
 	r := newRec("C06",
-		"exhaustive over operand forms: a form is (value ∈ {true,false,empty,non-Boolean singleton,multi-item}) × (source ∈ {literal, FHIR boolean element, FHIR choice element, FHIR element variable, System variable, computed, function result, absent path}); {and,or,xor,implies} × every ordered pair of the forms, not() and the criteria of where/exists/all/iif and EvaluateAsBool × every form; plus rapid-generated nested formulas (depth ≤ 3) for commutativity, De Morgan, implies-as-or and double negation.  A second table repeats the operators, not(), iif and EvaluateAsBool over an input of several resources (two Patients with different values and an Observation), where a path rooted at the type name ranges over all of them.  Cells that cannot exist (a multi-item literal, an empty FHIR element) are absent from the table.  non-trivial = at least one operand is not a literal (laws: formula longer than 20 characters with a non-error value); every cell is distinct",
+		"exhaustive over operand forms: a form is (value ∈ {true,false,empty,non-Boolean singleton,multi-item}) × (source ∈ {literal, FHIR boolean element, FHIR choice element, FHIR element variable, System variable, computed, function result, absent path}); {and,or,xor,implies} × every ordered pair of the forms, not() and the criteria of where/exists/all/iif and EvaluateAsBool × every form; plus rapid-generated nested formulas (depth ≤ 3) for commutativity, De Morgan, implies-as-or and double negation; unparenthesised chains of 3..5 operand forms under mixed operators, judged by folding the truth tables along the precedence table (and; or/xor; implies; left-associative).  A second table repeats the operators, not(), iif and EvaluateAsBool over an input of several resources (two Patients with different values and an Observation), where a path rooted at the type name ranges over all of them.  Cells that cannot exist (a multi-item literal, an empty FHIR element) are absent from the table.  non-trivial = at least one operand is not a literal (laws: formula longer than 20 characters with a non-error value); every cell is distinct",
 		"Kleene truth tables as printed in FHIRPath N1 §6.5")
 	runProperty(t, r,
 		Stage[c06Case]{Name: "cells", Enum: c06Enum, Run: c06Run},
 		Stage[c06Case]{Name: "laws", Gen: c06GenLaw, Run: c06RunLaw, N: pick(9000, 60000)},
+		Stage[c06Chain]{Name: "chains", Gen: c06GenChain, Run: c06RunChain, N: pick(9000, 60000)},
 	)
 }
